@@ -178,6 +178,10 @@ class RTFFigureService:
         i = 2
         while i < len(data) - 9:
             if data[i] == 0xFF:
+                # T.81 B.1.1.2: a marker may be preceded by any number of 0xFF fill bytes
+                if data[i + 1] == 0xFF:
+                    i += 1
+                    continue
                 marker = data[i + 1]
                 # SOF markers contain dimension info
                 sof_markers = {
